@@ -42,7 +42,7 @@ LEVEL_NOTE = ('Trusted: NumPy arithmetic, Hypothesis, evaluation of ODL leaf '
               'derived per case from a perturbed re-run of the reference '
               '(rounding-error propagation through the same tree).')
 DESIGN_REF = 'DESIGN.md section 5, C04'
-BUDGET = {'quick': 2400, 'thorough': 60000}
+BUDGET = {'quick': 8000, 'thorough': 150000}
 NOISE = 4.0
 TOLERANCES = {
     'value': '|got-ref|_max <= 16*delta + 64*eps(dtype)*(depth+1)*|ref|_max '
@@ -98,15 +98,16 @@ def envs(draw):
     dtype = ('complex' + {'64': '128', '32': '64'}[prec]) if cplx \
         else 'float' + prec
     skind = draw(st.sampled_from(['tensor', 'tensor', 'discr']))
-    if draw(st.integers(0, 4)) == 0:
+    if draw(st.sampled_from([True] + [False] * 4)):
         shape = draw(st.sampled_from([[2, 2], [2, 3], [3, 2], [1, 3]]))
     else:
         shape = [draw(st.sampled_from([1, 2, 3, 3, 4, 5]))]
     if skind == 'tensor':
         X = {'kind': 'tensor', 'shape': shape, 'dtype': dtype,
              'exponent': 2.0,
-             'weighting': draw(_weighting(shape, ['none', 'none', 'const',
-                                                  'array']))}
+             'weighting': draw(_weighting(
+                 shape, ['none', 'none', 'const', 'array'] if prec == '64'
+                 else ['none', 'const']))}
     else:
         nob = draw(st.booleans()) and min(shape) > 1
         cell = draw(st.sampled_from([1.0, 0.5, 0.25, 2.0]))
@@ -144,7 +145,7 @@ def _strategy(draw, tier):
     depth = draw(st.sampled_from([1, 2, 2, 3, 3, 3, 4, 4]))
     tree = draw(ex.trees(types, dom, ran, depth, 'c04', pairs))
     desc = {'types': types, 'tree': tree, 'mode': 'eval'}
-    if draw(st.integers(0, 14)) == 0:
+    if draw(st.sampled_from([False] * 39 + [True])):
         # rejection stratum: scalar outside the field / vector of the wrong
         # space applied to a well-typed expression
         opts = []
@@ -152,7 +153,9 @@ def _strategy(draw, tier):
         dcplx = ex.tinfo(types, types[dom]['fkey']).cplx
         if not fcplx:
             opts += ['lscal', 'addscal']
-        if not dcplx:
+        if not dcplx and not fcplx:
+            # (for operators flagged linear A*a is rewritten to a*A, so the
+            # range field decides as well)
             opts += ['rscal', 'div']
         other = 'Y' if 'X' in (dom, ran) else 'X'
         if ex.tinfo(types, dom).cat == 'leaf' and dom in ('X', 'Y'):
@@ -211,13 +214,114 @@ def _cls(obj):
     return type(obj).__name__
 
 
-def _pattern(b):
-    """Root-cause pattern of a constructor node: op, how, operand classes."""
+_pattern = ex.node_pattern
+_site = ex.node_site
+
+
+def _crash_site(env, b):
+    """Root-cause key of a node whose evaluation raises."""
     node = b.node
-    if node['op'] == 'leaf':
-        return 'leaf:' + node['kind']
-    kids = ','.join(_cls(k.obj) for k in b.kids)
-    return '{}:{}({})'.format(node['op'], node.get('how', 'op'), kids)
+    extra = ''
+    if node['op'] == 'comp':
+        extra = '|mid=' + env.info(node['a']['dom']).cat
+    return '{}{}'.format(_cls(b.obj), extra)
+
+
+def _localise_crash(env, root, x_root, inplace, exc_type):
+    """Smallest subtree whose own evaluation raises ``exc_type`` at the
+    point it receives inside the root evaluation."""
+    tr = Tracer(env)
+    try:
+        tr.ev(root, x_root)
+    except Exception:  # noqa
+        return root
+    order = []
+
+    def post(b):
+        for k in b.kids:
+            post(k)
+        order.append(b)
+    post(root)
+    for b in order:
+        if id(b) not in tr.inputs:
+            continue
+        ran_space = env.info(b.node['ran']).cat != 'field'
+        try:
+            xe = env.element(b.node['dom'], tr.inputs[id(b)])
+            if inplace and ran_space:
+                b.obj(xe, out=env.set(b.node['ran']).element())
+            else:
+                b.obj(xe)
+        except exc_type:
+            return b
+        except Exception:  # noqa
+            continue
+    return root
+
+
+class KnownRegion(Exception):
+    """The failure lies in the region of a recorded known finding."""
+
+    def __init__(self, fid):
+        super(KnownRegion, self).__init__(fid)
+        self.fid = fid
+
+
+def _known_inplace_region(env, b):
+    """Known findings C04-K1 / C04-K2: in-place evaluation through a field
+    (see known_findings.d/C04.json)."""
+    node = b.node
+    if node['op'] == 'comp' and env.info(node['a']['dom']).cat == 'field' \
+            and isinstance(b.obj, ex.OperatorComp):
+        return 'C04-K1'
+    if isinstance(b.obj, ex.OperatorRightScalarMult) and \
+            env.info(node['dom']).cat == 'field':
+        return 'C04-K2'
+    return None
+
+
+def _aliasing_leaf(node):
+    while node['op'] == 'pos':
+        node = node['a']
+    return node['op'] == 'leaf' and node['kind'] in ('realpart', 'imagpart')
+
+
+def known_region(types, tree):
+    """Known finding whose region the tree lies in (None if none)."""
+    for n in ex.tree_nodes(tree):
+        if n['op'] in ('addvec', 'addscal') and \
+                ex.tinfo(types, n['ran']).cat != 'field' and \
+                _aliasing_leaf(n['a']):
+            return 'C04-K4'
+        if n['op'] in ('rscal', 'div') and n['a'].get('fk') == 'func' and \
+                n.get('how') == 'op' and \
+                ex.tinfo(types, n['dom']).cat == 'field' and \
+                ex.scalar_value(n['s']) == 0:
+            return 'C04-K3'
+    return None
+
+
+def _call_guard(env, root, x, fn, inplace, strict=True):
+    """Evaluate; an exception raised inside odl becomes a Violation keyed by
+    the smallest failing sub-expression."""
+    try:
+        return fn()
+    except (Violation, HarnessError):
+        raise
+    except Exception as e:  # noqa
+        where, csig = crash_signature(PROPERTY, e)
+        if where != 'odl':
+            raise
+        b = _localise_crash(env, root, x, inplace, type(e))
+        if inplace and not strict:
+            fid = _known_inplace_region(env, b)
+            if fid is not None:
+                raise KnownRegion(fid)
+        raise Violation('C04|{}|{}|{}|{}|{}'.format(
+            'call-inplace' if inplace else 'call', _crash_site(env, b),
+            _region(env, b.node), type(e).__name__, csig.split('|')[-1]),
+            '{}: {} (culprit {} inside {})'.format(
+                type(e).__name__, str(e)[:300], _pattern(b), _pattern(root)))
 
 
 def _region(env, node):
@@ -238,8 +342,8 @@ class Tracer(ex.Interp):
         return super(Tracer, self).ev(b, x)
 
 
-def _tol(ref, delta, depth):
-    eps = ex.veps(ref)
+def _tol(env, ref, delta, depth):
+    eps = env.eps
     mag = ex.vmaxabs(ref)
     return 16.0 * delta + 64.0 * eps * (depth + 1) * mag + 1e-300, mag, eps
 
@@ -255,7 +359,7 @@ def _reference(env, b, x, depth):
         if not ex.vfinite(noisy):
             return ref, None, 'nonfinite'
         delta = max(delta, ex.vmaxabs(ex.vsub(noisy, ref)))
-    tol, mag, eps = _tol(ref, delta, depth)
+    tol, mag, eps = _tol(env, ref, delta, depth)
     if delta > 1e-4 * max(mag, 1e-300) and delta > 1e3 * eps:
         return ref, tol, 'illcond'
     return ref, tol, 'ok'
@@ -271,7 +375,7 @@ def _check_result_type(env, key, y, sig, what):
     return ex.to_np(y, space)
 
 
-def _localise(env, root, x_root, depth):
+def _localise(env, root, x_root, depth, inplace=False):
     """Smallest subtree whose ODL object disagrees with the reference at the
     point it is evaluated at inside the failing root evaluation."""
     tr = Tracer(env)
@@ -287,14 +391,22 @@ def _localise(env, root, x_root, depth):
         order.append(b)
     post(root)
     for b in order:
-        if b.node['op'] == 'leaf' or id(b) not in tr.inputs:
+        if id(b) not in tr.inputs:
+            continue
+        ran_space = env.info(b.node['ran']).cat != 'field'
+        if b.node['op'] == 'leaf' and not (inplace and ran_space):
             continue
         x = tr.inputs[id(b)]
         try:
             ref, tol, status = _reference(env, b, x, depth)
             if status != 'ok':
                 continue
-            y = b.obj(env.element(b.node['dom'], x))
+            if inplace and ran_space:
+                y = env.set(b.node['ran']).element()
+                _fill_nan(y)
+                b.obj(env.element(b.node['dom'], x), out=y)
+            else:
+                y = b.obj(env.element(b.node['dom'], x))
             got = ex.to_np(y, env.set(b.node['ran']))
             err = ex.vmaxabs(ex.vsub(got, ref))
             if not err <= tol:
@@ -316,8 +428,19 @@ def run_case(desc):
     cplx = 'Xr' in types
     field = 'cplx' if cplx else 'real'
 
-    root = _odl_guard(lambda: ex.build(env, tree),
-                      'C04|build|{}|{}'.format(tree['op'], field))
+    fid = known_region(types, tree)
+    if fid is not None and not desc.get('strict'):
+        return Outcome('excluded', strata=['excluded:' + fid])
+
+    try:
+        root = ex.build(env, tree)
+    except ex.BuildFailure as bf:
+        if bf.where != 'odl':
+            raise bf.exc
+        raise Violation('C04|build|{}|{}|{}'.format(
+            bf.site, _region(env, bf.node), type(bf.exc).__name__),
+            'constructing the well-typed expression {} failed: {}: {}'.format(
+                bf.pattern, type(bf.exc).__name__, str(bf.exc)[:400]))
     expr = root.obj
     reg = _region(env, tree)
 
@@ -345,20 +468,20 @@ def run_case(desc):
 
     # ---- static facts -----------------------------------------------------
     if not isinstance(expr, ex.Operator):
-        raise Violation('C04|type|not-operator|' + _pattern(root),
+        raise Violation('C04|type|not-operator|' + _site(root),
                         'expression is a {!r}'.format(type(expr)))
     for b in ex.walk(root):
         node = b.node
         if b.obj.domain != env.set(node['dom']):
-            raise Violation('C04|domain|{}|{}'.format(_pattern(b), reg),
+            raise Violation('C04|domain|{}|{}'.format(_site(b), reg),
                             'domain {!r} expected {!r}'.format(
                                 b.obj.domain, env.set(node['dom'])))
         if b.obj.range != env.set(node['ran']):
-            raise Violation('C04|range|{}|{}'.format(_pattern(b), reg),
+            raise Violation('C04|range|{}|{}'.format(_site(b), reg),
                             'range {!r} expected {!r}'.format(
                                 b.obj.range, env.set(node['ran'])))
         if node.get('fk') == 'func' and not isinstance(b.obj, Functional):
-            raise Violation('C04|type|functional-lost|{}'.format(_pattern(b)),
+            raise Violation('C04|type|functional-lost|{}'.format(_site(b)),
                             'documented to return a Functional, got {}'
                             ''.format(_cls(b.obj)))
 
@@ -372,7 +495,7 @@ def run_case(desc):
         if ex.true_linear(b.node) and all(
                 k.obj.is_linear for k in b.kids) and not b.obj.is_linear:
             raise Violation('C04|linear-flag-lost|{}|{}'.format(
-                _pattern(b), reg), 'operands are flagged linear, result of '
+                _site(b), reg), 'operands are flagged linear, result of '
                 'a linearity-preserving constructor is not')
 
     # ---- values -----------------------------------------------------------
@@ -398,31 +521,37 @@ def run_case(desc):
         x_before = ex.to_np(xe, env.set(dom))
 
         def fail(kind, got, err):
-            culprit = _localise(env, root, x, depth)
+            culprit = _localise(env, root, x, depth,
+                                inplace=(kind == 'value-inplace'))
             raise Violation(
-                'C04|{}|{}|{}'.format(kind, _pattern(culprit),
+                'C04|{}|{}|{}'.format(kind, _site(culprit),
                                       _region(env, culprit.node)),
                 'point {}: max error {:.3g} > tol {:.3g}; got {!r} '
                 'reference {!r}; culprit {} inside {}'.format(
                     i, err, tol, _short(got), _short(ref), _pattern(culprit),
                     _pattern(root)))
 
-        y = _odl_guard(lambda: expr(xe),
-                       'C04|call|{}|{}'.format(_pattern(root), reg))
+        y = _call_guard(env, root, x, lambda: expr(xe), False)
         got = _check_result_type(env, ran, y, sig_val.format(
             _pattern(root), reg), 'expr(x)')
         err = ex.vmaxabs(ex.vsub(got, ref))
         if not err <= tol:
             fail('value', got, err)
+        if ex.vmaxabs(ex.vsub(ex.to_np(xe, env.set(dom)), x_before)) != 0:
+            raise Violation('C04|input-modified|{}|{}'.format(
+                _site(root), reg), 'out-of-place evaluation changed x')
         if ran_is_space:
             out = env.set(ran).element()
             _fill_nan(out)
-            y2 = _odl_guard(lambda: expr(xe, out=out),
-                            'C04|call-inplace|{}|{}'.format(_pattern(root),
-                                                            reg))
+            try:
+                y2 = _call_guard(env, root, x, lambda: expr(xe, out=out),
+                                 True, strict=bool(desc.get('strict')))
+            except KnownRegion as kr:
+                strata.append('excluded:' + kr.fid)
+                continue
             if y2 is not out:
                 raise Violation('C04|inplace-identity|{}|{}'.format(
-                    _pattern(root), reg), 'expr(x, out=y) is not y')
+                    _site(root), reg), 'expr(x, out=y) is not y')
             got2 = ex.to_np(out, env.set(ran))
             err = ex.vmaxabs(ex.vsub(got2, ref))
             if not err <= tol:
@@ -431,7 +560,7 @@ def run_case(desc):
         # the evaluation point is immutable
         if ex.vmaxabs(ex.vsub(ex.to_np(xe, env.set(dom)), x_before)) != 0:
             raise Violation('C04|input-modified|{}|{}'.format(
-                _pattern(root), reg), 'evaluation changed x')
+                _site(root), reg), 'in-place evaluation changed x')
 
     # ---- is_linear => numerically linear ------------------------------------
     if expr.is_linear and len(pts) >= 2 and statuses[0] == statuses[1] == 'ok':
@@ -439,20 +568,19 @@ def run_case(desc):
         c = ex.scalar_value(desc['lin'][1])
         x1, x2 = pts[0], pts[1]
         comb = ex.vadd(ex.vscale(a, x1), ex.vscale(c, x2))
-        yc = ex.to_np(_odl_guard(lambda: expr(env.element(dom, comb)),
-                                 'C04|call|{}|{}'.format(_pattern(root),
-                                                         reg)),
-                      env.set(ran))
+        yc = ex.to_np(_call_guard(env, root, comb,
+                                  lambda: expr(env.element(dom, comb)),
+                                  False), env.set(ran))
         (r1, t1, _), (r2, t2, _) = refs[0], refs[1]
         expect = ex.vadd(ex.vscale(a, r1), ex.vscale(c, r2))
         tol = (abs(a) * t1 + abs(c) * t2) * 4 + \
-            256 * ex.veps(expect) * (depth + 1) * (
+            256 * env.eps * (depth + 1) * (
                 abs(a) * ex.vmaxabs(r1) + abs(c) * ex.vmaxabs(r2))
         err = ex.vmaxabs(ex.vsub(yc, expect))
         if not err <= tol + 1e-300:
             culprit = _nonlinear_culprit(env, root)
             raise Violation('C04|linear-flag|{}|{}'.format(
-                _pattern(culprit), reg),
+                _site(culprit), reg),
                 'is_linear is True but expr(a x + c y) != a expr(x) + c '
                 'expr(y): error {:.3g} tol {:.3g}'.format(err, tol))
         strata.append('linearity-checked')
